@@ -2155,7 +2155,7 @@ pub fn run(args: &Args) {
             if !args.thorough && i % 3 == (args.seed % 3) as usize && i >= 3 { continue; }
             let b = gen_reorder_dense(&mut rng, *t, 0); reorder_case(&mut cx, &b, false);
         }
-        for i in 0..(16 * scale) { let b = gen_reorder_wide(&mut rng, i as usize); if i == 0 { cx.sum.sample(json!({"reorder_wide": b})); } reorder_case(&mut cx, &b, i % 8 < 3 && i < 6); }
+        for i in 0..(16 * if args.thorough { 3 } else { 1 }) { let b = gen_reorder_wide(&mut rng, i as usize); if i == 0 { cx.sum.sample(json!({"reorder_wide": b})); } reorder_case(&mut cx, &b, i % 8 < 3 && i < 6); }
         for n in [830usize, 1300, 2000, 5000].iter().take(if args.thorough { 4 } else { 3 }) {
             let extra = rng.below(40) as usize; let b = gen_reorder_dense(&mut rng, 0, *n + extra); reorder_case(&mut cx, &b, false);
         }
@@ -2165,7 +2165,9 @@ pub fn run(args: &Args) {
             run_mv(&mut cx, es, ic, g, sow, &ops, false);
         }
         // oracle breadth: secondary entry points, presets, element types inside the histories; sizes across the 64 KiB mapping
-        for i in 0..(44 * scale) {
+        // (the breadth families grow by 4 in the thorough tier, the older ones by 12: the harness has 15 minutes)
+        let wscale = if args.thorough { 4 } else { 1 };
+        for i in 0..(44 * wscale) {
             let (ty, ic, g, sow, ops, preset) = gen_mv_wide(&mut rng, i as usize);
             if i == 0 { cx.sum.sample(json!({"mmapvec_wide": {"ty": ty, "ic": ic, "growth": g, "sync_on_write": sow, "ops": ops, "preset": preset}})); }
             let ex = i % 22 == 5;
@@ -2185,7 +2187,7 @@ pub fn run(args: &Args) {
             let leftover = if i % 3 == 1 { *rng.pick(&[1usize, 7, 50, 200, 5000]) } else { 0 };
             plain_case(&mut cx, &o, leftover, false);
         }
-        for i in 0..(24 * scale) {
+        for i in 0..(24 * wscale) {
             let o = gen_plain_wide(&mut rng);
             if i == 0 { cx.sum.sample(json!({"plain_wide": o})); }
             let leftover = if i % 4 == 1 { *rng.pick(&[1usize, 50, 5000]) } else { 0 };
@@ -2220,8 +2222,8 @@ pub fn run(args: &Args) {
             }
             mmio_case(&mut cx, &ops, *rng.pick(&[1usize, 16, 4096, 10000]), false);
         }
-        for i in 0..(if args.thorough { 60 } else { 12 }) {
-            if !args.thorough && i == 11 { continue; }   // one file at the 1 MiB threshold per quick run
+        for i in 0..(if args.thorough { 30 } else { 12 }) {
+            if i % 6 == 5 && i != 5 && i != 17 { continue; }   // one file at the 1 MiB threshold per quick run, two per thorough run (7 - 20 s each)
             let (ops, initial) = gen_mmio_wide(&mut rng, i as usize);
             mmio_case(&mut cx, &ops, initial, i < 2 && initial <= 16);
         }
